@@ -1,7 +1,8 @@
 -------------------------------- MODULE Rtmr_MC --------------------------------
 EXTENDS Rtmr, Json
-IndicesQuick    == {-1, 0, 1, 2, 3, 4, 5, 2147483647}
-IndicesThorough == {-1, 0, 1, 3, 4, 2147483647}
+\* in range: 0..3; just outside: -1, 4, 5; values that alias a valid index when narrowed to 8 / 16 bits or negated; extremes
+IndicesQuick    == {-1, 0, 1, 2, 3, 4, 5, 256, 258, 65537, -254, 2147483647, -2147483647}
+IndicesThorough == {-1, 0, 1, 3, 4, 257, 65536, -253, 2147483647}
 \* one case per complete history
 ExportCase == (pc = "idle" /\ calls = MaxCalls) => PrintT(<<"CASE", ToJson([init |-> init, hist |-> hist])>>)
 =================================================================================
